@@ -8,6 +8,7 @@ import (
 	"fmt"
 	"math"
 	"math/rand"
+	"sort"
 
 	dproto "github.com/cloudwego/dynamicgo/proto"
 	pgen "github.com/cloudwego/dynamicgo/proto/generic"
@@ -16,10 +17,15 @@ import (
 	"google.golang.org/protobuf/types/dynamicpb"
 )
 
+type PManyItem struct {
+	It  PItem `json:"it"`
+	Sub PVal  `json:"sub"`
+}
 type PEditOp struct {
-	Op   string  `json:"op"`
-	Path []PItem `json:"path"`
-	Sub  PVal    `json:"sub"`
+	Op   string      `json:"op"` // Set | Unset | SetMany (path = the parent node, many = children to set)
+	Path []PItem     `json:"path"`
+	Sub  PVal        `json:"sub"`
+	Many []PManyItem `json:"many"`
 }
 type PEditCase struct {
 	Schema *PSchema  `json:"schema,omitempty"`
@@ -204,42 +210,25 @@ func (c *c10) run(pc PEditCase) {
 	for _, op := range pc.Ops {
 		items := fixItems(op.Path)
 		ev := map[string]interface{}{"ev": "PEdit", "op": op.Op, "path": items, "sub": op.Sub, "exist": false, "st": "ok", "adump": pNone()}
-		// message type of a message-kind sub: the reference descriptor at the path
-		var subMd protoreflect.MessageDescriptor
-		if op.Sub.K == "message" {
-			_, _, cur, ok := refWalk(c.env.rroot, items)
-			if !ok {
-				continue
-			}
-			subMd = cur
+		if op.Many == nil {
+			op.Many = []PManyItem{}
 		}
+		ev["many"] = op.Many
 		func() {
 			defer func() {
 				if e := recover(); e != nil {
 					ev["st"] = "panic:" + fmt.Sprint(e)
 				}
 			}()
-			ps := make([]pgen.Path, len(items))
-			for i, it := range items {
-				ps[i] = toPPath(it)
+			exist, err, skip := c.apply(&v, op)
+			if skip {
+				ev["st"] = "skip"
+				return
 			}
-			if op.Op == "Set" {
-				sub, ok := c.subNodeP(op.Sub, subMd)
-				if !ok {
-					ev["st"] = "skip"
-					return
-				}
-				exist, err := v.SetByPath(sub, ps...)
-				ev["exist"] = exist
-				if err != nil {
-					ev["st"] = "err"
-					ev["msg"] = err.Error()
-				}
-			} else {
-				if err := v.UnsetByPath(ps...); err != nil {
-					ev["st"] = "err"
-					ev["msg"] = err.Error()
-				}
+			ev["exist"] = exist
+			if err != nil {
+				ev["st"] = "err"
+				ev["msg"] = err.Error()
 			}
 		}()
 		if ev["st"] == "skip" {
@@ -251,6 +240,65 @@ func (c *c10) run(pc PEditCase) {
 			return
 		}
 	}
+}
+
+// apply performs one operation on the root value
+func (c *c10) apply(v *pgen.Value, op PEditOp) (exist bool, err error, skip bool) {
+	items := fixItems(op.Path)
+	ps := make([]pgen.Path, len(items))
+	for i, it := range items {
+		ps[i] = toPPath(it)
+	}
+	mdOf := func(path []PItem) (protoreflect.MessageDescriptor, bool) {
+		_, _, cur, ok := refWalk(c.env.rroot, path)
+		return cur, ok
+	}
+	switch op.Op {
+	case "Set":
+		var subMd protoreflect.MessageDescriptor
+		if op.Sub.K == "message" {
+			var ok bool
+			if subMd, ok = mdOf(items); !ok {
+				return false, nil, true
+			}
+		}
+		sub, ok := c.subNodeP(op.Sub, subMd)
+		if !ok {
+			return false, nil, true
+		}
+		exist, err = v.SetByPath(sub, ps...)
+		return exist, err, false
+	case "Unset":
+		return false, v.UnsetByPath(ps...), false
+	case "SetMany":
+		var pns []pgen.PathNode
+		for _, m := range op.Many {
+			it := fixItems([]PItem{m.It})[0]
+			var subMd protoreflect.MessageDescriptor
+			if m.Sub.K == "message" {
+				var ok bool
+				if subMd, ok = mdOf(cat(items, it)); !ok {
+					return false, nil, true
+				}
+			}
+			sub, ok := c.subNodeP(m.Sub, subMd)
+			if !ok {
+				return false, nil, true
+			}
+			pns = append(pns, pgen.PathNode{Path: toPPath(it), Node: sub})
+		}
+		if len(items) == 0 {
+			return false, v.SetMany(pns, &pgen.Options{}, v, []int{}, []pgen.Path{}...), false
+		}
+		cur, addr := v.GetByPathWithAddress(ps...)
+		if cur.IsError() {
+			return false, cur, false
+		}
+		// the last element of the path/address to the root is only a flag (see the library's own tests)
+		flag := toPPath(fixItems([]PItem{op.Many[0].It})[0])
+		return false, cur.SetMany(pns, &pgen.Options{}, v, append(addr, 0), append(ps, flag)...), false
+	}
+	return false, nil, true
 }
 
 // ---- random histories ----
@@ -387,6 +435,98 @@ func (c *c10) randOp(r *rand.Rand, cur PVal) (PEditOp, bool) {
 	return PEditOp{}, false
 }
 
+// randMany picks a parent (a message, a repeated field or a map field, at the root or below singular message fields)
+// and 1..3 distinct children to set at once
+func (c *c10) randMany(r *rand.Rand, cur PVal) (PEditOp, bool) {
+	var items []PItem
+	v := cur
+	md := c.env.rroot
+	for depth := 0; depth < 3 && r.Intn(2) == 0; depth++ {
+		var cands []PEntry
+		for _, f := range v.F {
+			if f.Card == "one" && f.E[0].V.K == "message" {
+				cands = append(cands, f)
+			}
+		}
+		if len(cands) == 0 {
+			break
+		}
+		f := cands[r.Intn(len(cands))]
+		items, v, md = cat(items, PItem{K: "id", N: f.Num, B: B{}}), f.E[0].V, md.Fields().ByNumber(protoreflect.FieldNumber(f.Num)).Message()
+	}
+	newVal := func(fd protoreflect.FieldDescriptor) PVal {
+		if fd.Kind() == protoreflect.MessageKind {
+			return dumpMsg(randMsgPB(r, fd.Message(), 3, pbGenCfg{maxStr: 200}))
+		}
+		for {
+			if sub := dumpScalar(fd.Kind(), randScalarPB(r, fd.Kind(), 200)); !isZeroScalar(sub) {
+				return sub
+			}
+		}
+	}
+	op := PEditOp{Op: "SetMany", Sub: pNone()}
+	// a container parent?
+	if len(v.F) > 0 && r.Intn(2) == 0 {
+		f := v.F[r.Intn(len(v.F))]
+		fd := md.Fields().ByNumber(protoreflect.FieldNumber(f.Num))
+		switch f.Card {
+		case "rep":
+			op.Path = cat(items, PItem{K: "id", N: f.Num, B: B{}})
+			n := 1 + r.Intn(3)
+			used := map[int]bool{}
+			next := len(f.E)
+			for k := 0; k < n; k++ {
+				i := r.Intn(len(f.E) + 1)
+				if i == len(f.E) {
+					i = next
+					next++
+				}
+				if used[i] {
+					continue
+				}
+				used[i] = true
+				op.Many = append(op.Many, PManyItem{It: PItem{K: "idx", N: i, B: B{}}, Sub: newVal(fd)})
+			}
+			// appended indices must come in ascending order after the replacements
+			sort.SliceStable(op.Many, func(a, b int) bool { return op.Many[a].It.N < op.Many[b].It.N })
+			return op, true
+		case "map":
+			op.Path = cat(items, PItem{K: "id", N: f.Num, B: B{}})
+			e := f.E[r.Intn(len(f.E))]
+			ki := PItem{K: "str", B: e.K.B}
+			fresh := PItem{K: "str", B: B(fmt.Sprintf("many-%d", r.Intn(1000)))}
+			if e.K.K != "string" {
+				kb := e.K.B
+				if len(kb) == 4 {
+					kb = append(B{0, 0, 0, 0}, kb...)
+				}
+				ki = PItem{K: "int", B: kb}
+				fresh = PItem{K: "int", B: be8(int64(88000 + r.Intn(1000)))}
+			}
+			if r.Intn(2) == 0 {
+				op.Many = append(op.Many, PManyItem{It: ki, Sub: newVal(fd.MapValue())})
+			}
+			if len(op.Many) == 0 || r.Intn(2) == 0 {
+				op.Many = append(op.Many, PManyItem{It: fresh, Sub: newVal(fd.MapValue())})
+			}
+			return op, true
+		}
+	}
+	// message parent: distinct singular fields, present or absent
+	op.Path = items
+	fds := md.Fields()
+	used := map[int]bool{}
+	for k := 0; k < 1+r.Intn(3); k++ {
+		fd := fds.Get(r.Intn(fds.Len()))
+		if fd.IsList() || fd.IsMap() || used[int(fd.Number())] {
+			continue
+		}
+		used[int(fd.Number())] = true
+		op.Many = append(op.Many, PManyItem{It: PItem{K: "id", N: int(fd.Number()), B: B{}}, Sub: newVal(fd)})
+	}
+	return op, len(op.Many) > 0
+}
+
 func isZeroScalar(v PVal) bool {
 	if v.K == "string" || v.K == "bytes" {
 		return len(v.B) == 0
@@ -414,6 +554,9 @@ func (c *c10) genRandom(seed int64, base, n int) {
 		steps := 1 + r.Intn(5)
 		for s := 0; s < steps; s++ {
 			op, ok := c.randOp(r, cur)
+			if r.Intn(4) == 0 {
+				op, ok = c.randMany(r, cur)
+			}
 			if !ok {
 				break
 			}
@@ -438,27 +581,8 @@ func (c *c10) scratch(pc PEditCase) (res PVal, ok bool) {
 	}()
 	v := pgen.NewRootValue(c.env.droot, append([]byte(nil), pc.B...))
 	for _, op := range pc.Ops {
-		items := fixItems(op.Path)
-		ps := make([]pgen.Path, len(items))
-		for i, it := range items {
-			ps[i] = toPPath(it)
-		}
-		if op.Op == "Set" {
-			var subMd protoreflect.MessageDescriptor
-			if op.Sub.K == "message" {
-				_, _, cur, ok := refWalk(c.env.rroot, items)
-				if !ok {
-					return pNone(), false
-				}
-				subMd = cur
-			}
-			sub, ok := c.subNodeP(op.Sub, subMd)
-			if !ok {
-				return pNone(), false
-			}
-			v.SetByPath(sub, ps...)
-		} else {
-			v.UnsetByPath(ps...)
+		if _, _, skip := c.apply(&v, op); skip {
+			return pNone(), false
 		}
 	}
 	pv, err := refDecode(c.env.rroot, append([]byte{}, v.Raw()...))
